@@ -1937,8 +1937,10 @@ func (c *HostClient) connsCleaner() {
 }
 
 func (c *HostClient) CloseConn(cc *clientConn) {
-	c.decConnsCount()
+	// Close the connection before giving up its slot: otherwise a new connection
+	// can be dialed while this one is still open, exceeding MaxConns.
 	cc.c.Close()
+	c.decConnsCount()
 	releaseClientConn(cc)
 }
 
